@@ -15,7 +15,10 @@ StdTable == {<<"second", Vec({<<"second", 1>>}), 0>>, <<"metre", Vec({<<"metre",
              <<"newton", Vec({<<"kilogram", 1>>, <<"metre", 1>>, <<"second", -2>>}), 0>>,
              <<"pascal", Vec({<<"kilogram", 1>>, <<"metre", -1>>, <<"second", -2>>}), 0>>,
              <<"hertz", Vec({<<"second", -1>>}), 0>>, <<"ampere", Vec({<<"ampere", 1>>}), 0>>,
-             <<"coulomb", Vec({<<"ampere", 1>>, <<"second", 1>>}), 0>>, <<"radian", Zero, 0>>}
+             <<"coulomb", Vec({<<"ampere", 1>>, <<"second", 1>>}), 0>>, <<"radian", Zero, 0>>,
+             <<"volt", Vec({<<"ampere", -1>>, <<"kilogram", 1>>, <<"metre", 2>>, <<"second", -3>>}), 0>>,
+             <<"joule", Vec({<<"kilogram", 1>>, <<"metre", 2>>, <<"second", -2>>}), 0>>,
+             <<"watt", Vec({<<"kilogram", 1>>, <<"metre", 2>>, <<"second", -3>>}), 0>>}
 StdNames == {t[1] : t \in StdTable}
 Std(n) == CHOOSE t \in StdTable : t[1] = n
 PrefixVal(p) == CASE p = "none" -> 0 [] p = "kilo" -> 3 [] p = "milli" -> -3 [] p = "micro" -> -6 [] p = "mega" -> 6 [] p = "centi" -> -2
